@@ -215,6 +215,7 @@ func (w *c06world) refresh(mayFail, mayCancel bool) {
 			}
 			if expired {
 				verif_Assert(!inList, "a provider no source reports is gone after the first refresh past its time-to-live")
+				verif_Assert(got == nil, "and lookups agree with listings: the expired provider is not returned any more")
 				w.visible[pid] = false
 				delete(w.shown, pid)
 				w.hasAbsent[pid] = false
@@ -574,4 +575,61 @@ func VerifC06_CancelledThenMissThenRefresh() {
 			verif_Assert(c06timeIdx(pi.LastAdvertisementTime) == 2, "listings show the most recent record")
 		}
 	}
+}
+
+// C06 (expiry, also for a provider that was never merged into the main map,
+// and negative entries across a merge): B is added while the main map holds A
+// and stays in the update map; it then disappears and its time-to-live passes:
+// the next refresh removes it from listings and lookups. A provider remembered
+// as absent stays remembered (no new source query) when a refresh rebuilds the
+// main map.
+func VerifC06_UnmergedExpiryAndNegativeAcrossMerge() {
+	old := c06pids
+	c06pids = []peer.ID{"A", "B", "C", "D"}
+	defer func() { c06pids = old }()
+	w := c06new()
+	set := func(present ...bool) {
+		for i, p := range present {
+			w.srcs[0].content[c06pids[i]] = c06entry{present: p, ti: 1}
+			w.srcs[1].content[c06pids[i]] = c06entry{}
+		}
+		w.cx.cancelled = false
+		verif_Assume(w.pc.Refresh(w.cx) == nil)
+	}
+	listed := func(pid peer.ID) bool {
+		for _, pi := range w.pc.List() {
+			if pi.AddrInfo.ID == pid {
+				return true
+			}
+		}
+		return false
+	}
+	set(true, false, false, false) // A: merged into the (empty) main map
+	if verif_Bool("negativeEntryScenario") {
+		// Q is looked up and remembered as absent (kept in the update map)
+		_, err := w.pc.Get(context.Background(), "Q")
+		verif_Assert(err == nil, "lookup succeeds")
+		before := w.fetches()
+		set(true, true, true, true) // three providers appear: the update map is merged into a new main map
+		verif_Reach("merged")
+		got, err := w.pc.Get(context.Background(), "Q")
+		verif_Assert(err == nil && got == nil, "the unknown provider is still absent")
+		verif_Assert(w.fetches() == before, "a provider remembered as absent is not looked up at the sources again after the main map was rebuilt")
+		return
+	}
+	set(true, true, false, false) // B: kept in the update map
+	verif_Assume(listed("B"))
+	set(true, false, false, false) // B disappears: its time-to-live starts
+	verif_Assert(listed("B"), "a provider no source reports stays visible until its time-to-live has elapsed")
+	w.clock += c06ttlUnits + 1
+	verif_SetClock(int64(w.clock))
+	set(true, false, false, false) // first refresh past the time-to-live
+	verif_Reach("expired")
+	verif_Assert(!listed("B"), "a provider that was only in the update map is gone after the first refresh past its time-to-live")
+	verif_Assert(listed("A"), "the others stay")
+	for _, s := range w.srcs {
+		s.fail = false
+	}
+	got, err := w.pc.Get(context.Background(), "B")
+	verif_Assert(err == nil && got == nil, "and is not returned by lookups either")
 }
